@@ -44,6 +44,10 @@ fn main() {
         tier = args.get(i + 1).and_then(|t| Tier::parse(t)).unwrap_or(Tier::Quick);
     }
     let part = if cfg!(debug_assertions) { "realclock-debug" } else { PART };
+    if tier == Tier::Quick {
+        std::env::set_var("XS_MAX_WALL_S", "120");
+        std::env::set_var("XS_MAX_STATES", "3000000");
+    }
     let code = match args[1].as_str() {
         "C12" => {
             let chk = Check::new("C12", part, tier, "model_checking");
